@@ -316,7 +316,11 @@ private:
 
   void set_critical_region_flag() {
     assert(!control_block->is_in_critical_region.load(std::memory_order_relaxed));
-    control_block->is_in_critical_region.store(true, std::memory_order_relaxed);
+    // This store has to use release order: the control block might have been adopted from a thread that
+    // has terminated. The happens-before relation to that thread's last critical region (established by
+    // the acquire-CAS in try_adopt) must be passed on to a thread that scans this block and reads "true"
+    // (with the acquire-fence (6)); a relaxed store would replace the terminated thread's release-store (4).
+    control_block->is_in_critical_region.store(true, std::memory_order_release);
     // (3) - this seq_cst-fence enforces a total order with itself, and
     //       synchronizes-with the acquire-fence (6)
     XENIUM_THREAD_FENCE(std::memory_order_seq_cst);
